@@ -1,6 +1,6 @@
 """C08 - FEN formatting and FEN parsing are mutually inverse (the writer and the reader as transition systems)."""
 from . import fenrules
-from . import valuerules
+from . import valuerules, validaterules
 
 
 def run(ctx):
@@ -36,3 +36,8 @@ def run(ctx):
     fenrules.fields_rule(ctx, facts, "F1", ctx.tier == "thorough")
     fenrules.wrapper_rule(ctx, facts, "F2")
     valuerules.char_tables_rule(ctx, facts, "F5")
+    ctx.decided.append("F6/F6n (component: validation) Board::from_fen validates what RawBoard::from_fen read: validation accepts exactly the valid "
+                       "raw boards and changes only a mark or rights that a valid position cannot carry (= C11/V1, V2 re-run) - so a valid "
+                       "position's own text is read back as itself")
+    validaterules.errors_rule(ctx, facts, "F6")
+    validaterules.normalise_rule(ctx, facts, "F6n")
